@@ -280,7 +280,13 @@ def check_conformance(module, version):
             else:
                 kids.append(c)
         if n.type == 'param':
-            continue     # grouping convention: checked through its parent
+            # grouping convention (sentence checked through its parent): a param node holds one parameter -
+            # optional stars, a name (possibly annotated), optional default, optional trailing comma
+            names = [c for c in kids if c.type in ('name', 'tfpdef')]
+            if len([c for c in kids if c.type == 'name' or c.type == 'tfpdef']) < 1 or \
+                    any(c.type == 'operator' and c.value == '/' for c in kids):
+                return 'param node %r does not hold a parameter' % n.get_code()
+            continue
         rule = n.type
         if rule not in spec.ast:
             return 'node type %r is no rule of grammar %r' % (rule, version)
@@ -545,7 +551,9 @@ def check_refactor(grammar, module, text, index, repl):
         o += len(l.prefix) + len(l.value)
     a, b = off[id(target.get_first_leaf())][0], off[id(target.get_last_leaf())][1]
     want = text[:a] + repl + text[b:]
-    got = grammar.refactor(module, {target: repl})
-    if got != want:
-        return 'refactor({%s node %r: %r}) = %r, exact splice is %r' % (target.type, target.get_code()[:30], repl, got[:80], want[:80])
+    for r in (repl, ''):
+        want = text[:a] + r + text[b:]
+        got = grammar.refactor(module, {target: r})
+        if got != want:
+            return 'refactor({%s node %r: %r}) = %r, exact splice is %r' % (target.type, target.get_code()[:30], r, got[:80], want[:80])
     return None
